@@ -452,6 +452,13 @@ class DiscriminatedUnionUnpackerBuilder(AbstractUnpackerBuilder):
             with lines.indent(f"for variant in {variants}:"):
                 with lines.indent("try:"):
                     if spec.builder.is_nailed:
+                        # a method inherited from a parent class would
+                        # unpack the parent's fields
+                        with lines.indent(
+                            f"if {variant_method_name!r} "
+                            "not in variant.__dict__:"
+                        ):
+                            lines.append("raise AttributeError")
                         lines.append(f"return variant.{variant_method_call}")
                     else:
                         lines.append(
